@@ -79,23 +79,26 @@ func c15model(c *Ctx, ruleCount, ruleType, ruleShape string) {
 	pkg := c.P.Pkg("geom")
 	// the comparison stub: lowest-level tolerance test present in the package
 	var scalarCmp, pointCmp *types.Func
-	for _, fn := range c.P.RepoFuncs() {
-		if c.P.DeclPkg(fn) != pkg {
-			continue
-		}
-		sig := fn.Type().(*types.Signature)
-		if sig.Recv() != nil || sig.Params().Len() != 3 || sig.Results().Len() != 1 {
-			continue
-		}
-		if rb, ok := sig.Results().At(0).Type().Underlying().(*types.Basic); !ok || rb.Kind() != types.Bool {
-			continue
-		}
-		p0, p1, p2 := sig.Params().At(0).Type(), sig.Params().At(1).Type(), sig.Params().At(2).Type()
-		if isFloat64(p0) && isFloat64(p1) && isFloat64(p2) {
-			scalarCmp = fn
-		}
-		if types.Identical(p0, m.ptT) && types.Identical(p1, m.ptT) && isFloat64(p2) {
-			pointCmp = fn
+	if ts := c15toleranceTests(c); len(ts) > 0 {
+		scalarCmp = ts[0]
+	}
+	if scalarCmp == nil {
+		for _, fn := range c.P.RepoFuncs() {
+			if c.P.DeclPkg(fn) != pkg {
+				continue
+			}
+			sig := fn.Type().(*types.Signature)
+			if sig.Recv() != nil || sig.Params().Len() != 3 || sig.Results().Len() != 1 {
+				continue
+			}
+			if rb, ok := sig.Results().At(0).Type().Underlying().(*types.Basic); !ok || rb.Kind() != types.Bool {
+				continue
+			}
+			p0, p1, p2 := sig.Params().At(0).Type(), sig.Params().At(1).Type(), sig.Params().At(2).Type()
+			// a point-level test, confirmed by behaviour: |a − b| < e on both coordinates
+			if types.Identical(p0, m.ptT) && types.Identical(p1, m.ptT) && isFloat64(p2) && pointCmp == nil && c15isToleranceTest(c, fn, m.ptT) {
+				pointCmp = fn
+			}
 		}
 	}
 	near := func(a, bb oval) (bool, bool) {
@@ -388,4 +391,58 @@ func c15model(c *Ctx, ruleCount, ruleType, ruleShape string) {
 	default:
 		c.OK(ruleType, "geom#Similar-across-types", token.NoPos, "false for all %d ordered pairs of different types", tv.n)
 	}
+}
+
+// c15isToleranceTest evaluates a candidate helper on symbolic arguments under a handful of
+// valuations and accepts it when its answers are those of |a − b| < e (per coordinate for points).
+func c15isToleranceTest(c *Ctx, fn *types.Func, ptT types.Type) bool {
+	if c.P.Decl(fn) == nil {
+		return false
+	}
+	type tc struct {
+		a, b, e float64
+		want    bool
+	}
+	for _, t := range []tc{{1, 1.5, 1, true}, {1.5, 1, 1, true}, {1, 3, 1, false}, {3, 1, 1, false}, {-2, -2.25, 0.5, true}, {-2, 2, 0.5, false}, {10, 10, 0.001, true}} {
+		symResetEval()
+		it := &oInterp{p: c.P, maxDepth: 16, symbolic: true}
+		it.valuation = map[string]float64{"ta": t.a, "tb": t.b, "te": t.e, "tc": 7}
+		var args []oval
+		if ptT == nil {
+			args = []oval{oSym{polyVar("ta")}, oSym{polyVar("tb")}, oSym{polyVar("te")}}
+		} else {
+			// the X coordinates differ as given, the Y coordinates agree — and the other way round
+			mk := func(x, y string) oval {
+				st := it.zero(ptT).(*oStruct)
+				st.fields["X"], st.fields["Y"] = oSym{polyVar(x)}, oSym{polyVar(y)}
+				return st
+			}
+			for _, sw := range []bool{false, true} {
+				var p, q oval
+				if sw {
+					p, q = mk("tc", "ta"), mk("tc", "tb")
+				} else {
+					p, q = mk("ta", "tc"), mk("tb", "tc")
+				}
+				c.Evals(1)
+				res, why := it.Call(fn, nil, []oval{p, q, oSym{polyVar("te")}}, 0)
+				if why != "" || len(res) != 1 {
+					return false
+				}
+				if b, ok := res[0].(oBool); !ok || bool(b) != t.want {
+					return false
+				}
+			}
+			continue
+		}
+		c.Evals(1)
+		res, why := it.Call(fn, nil, args, 0)
+		if why != "" || len(res) != 1 {
+			return false
+		}
+		if b, ok := res[0].(oBool); !ok || bool(b) != t.want {
+			return false
+		}
+	}
+	return true
 }
